@@ -114,6 +114,8 @@ func runC29(c *Ctx) {
 		c.bad(P, "order", "reacquire="+e.Fn+":"+e.To, e.Pos, "while holding "+e.From+" the locked object is passed to a callee that acquires the same mutex again: with a writer queued between the two acquisitions (RWMutex) or unconditionally (Mutex) this deadlocks")
 	}
 	runPoolFields(c, P, "pool-fields")
+	// check-then-act across a lock release is not a data race but breaks linearizability (shared with C05)
+	runC05Atomic(c, P)
 }
 
 // runPoolFields: WorkerPool fields rewritten in Resize must be read under the same lock everywhere else.
